@@ -38,6 +38,7 @@ type reqChan struct {
 	LocalKey   uint32 `json:"local_key,omitempty"`  // only for update-through-create of free channels
 	Fault      string `json:"fault,omitempty"`      // missing-index foreign-index
 	IndexName  string `json:"index_name,omitempty"` // scripted steps: resolve LocalIndex/Lease from this channel
+	Internal   bool   `json:"internal,omitempty"`   // created with the Internal flag (renames/deletes of it are refused)
 }
 
 // step is one request of a history and its observed result.
@@ -206,6 +207,12 @@ func (hs *history) run(ctx context.Context) {
 			return
 		}
 		hs.sweep(ctx, st, deletedNow)
+		if os.Getenv("VERIF_C15_DEBUG") != "" && strings.Contains(hs.scenario, os.Getenv("VERIF_C15_DEBUG")) {
+			fmt.Fprintf(os.Stderr, "DEBUG %s step %d %s tx=%v keys=%v names=%v err=%q\n", hs.scenario, i, st.Op, st.Tx, st.Keys, st.Names, st.Err)
+			for _, ch := range hs.sortedMeta() {
+				fmt.Fprintf(os.Stderr, "DEBUG   meta %d %q internal=%v\n", ch.Key(), ch.Name, ch.Internal)
+			}
+		}
 		hs.steps = append(hs.steps, st)
 		hs.cur = nil
 	}
@@ -447,7 +454,11 @@ func (hs *history) exec(ctx context.Context, st *step) (deletedNow []channel.Key
 			// excluded from further checks.
 			hs.h.Count("failed_notx_requests", 1)
 			for _, k := range st.Keys {
-				hs.tainted[channel.Key(k)] = true
+				// a refused rename may have taken effect for part of its batch, but at both
+				// layers or at neither: its keys stay under the metadata = engine comparison
+				if st.Op != "rename" {
+					hs.tainted[channel.Key(k)] = true
+				}
 			}
 			for _, nm := range st.Names {
 				if ch, ok := hs.byName(nm); ok && st.Op == "delete-names" {
@@ -477,6 +488,7 @@ func toChannel(rc reqChan) channel.Channel {
 		DataType:    telem.DataType(rc.DataType),
 		LocalIndex:  channel.LocalKey(rc.LocalIndex),
 		LocalKey:    channel.LocalKey(rc.LocalKey),
+		Internal:    rc.Internal,
 	}
 	switch rc.Kind {
 	case "index":
@@ -768,14 +780,18 @@ func (hs *history) engineScan(ctx context.Context) map[channel.Key][]engineEntry
 }
 
 // judged reports whether residuals first seen after this step are judged: everything
-// after a successful request, and after a failing request only if it was transactional.
+// after a successful request, and after a failing request only if it was transactional
+// or a rename.
 func (hs *history) judged(st step) bool {
 	if st.Err == "" {
 		return true
 	}
-	if !st.Tx {
+	if !st.Tx && st.Op != "rename" {
 		return false
 	}
+	// (a refused rename changes names at both layers or at neither, transaction or not:
+	// the service updates the metadata rows of a gateway batch in one write before it
+	// renames in the engine, which restores on failure)
 	// A failing transactional request that names a channel the monitor has already
 	// reported on (e.g. one that exists in metadata only) fails *because of* that
 	// residual; what it leaves behind is a follow-on effect, not a new observation.
